@@ -210,10 +210,12 @@ def check(ctx):
         if n.kind == "stmt" and isinstance(n.ast, ast.Return) and n.ast.value is not None:
             v = n.ast.value
             facts = facts_text(facts_at(gcfg, n))
-            if any("stream_lines" in f and not f.startswith("not ") for f in facts):
+            nf_ = nfacts(gcfg, n)
+            if any("stream_lines" in t and pol for t, pol in nf_):
                 if "rstrip" in unparse(v):
                     n_strip += 1
-                    ok = "len(lines) == 1" in facts and unparse(v) == "lines[0].rstrip('\\n')"
+                    lp_ = param_name(gf, 0)
+                    ok = (f"len({lp_}) == 1", True) in nf_ and unparse(v) == f"{lp_}[0].rstrip('\\n')"
                     ctx.ob("R4", f"{PL}:CommandPipeline.get_formatted_lines", "the trailing newline is stripped only when there is exactly one line, and only newlines are stripped", ok, key="format|strip-condition", where=loc(n.ast), detail="; ".join(facts))
                 else:
                     ok = unparse(v) == "''.join(lines)"
